@@ -222,6 +222,23 @@ def _diffusion_weight(y1, second_arg_pred, direction):
     return total, zeroth, terms
 
 
+def _fd_times(y1, W):
+    """Time arguments of the G evaluations that are multiplied by something other than the plain increment W (the
+    finite-difference terms of derivative-free Milstein)."""
+    y1 = nf.reduce_sqrt(Rat.lift(y1))
+    out = []
+    for m, c in y1.num.terms.items():
+        for a, e in m:
+            if a[0] == "bil" and a[1] == "prod":
+                vk = nf.key_to_rat(a[3])
+                if nf.equal(vk, W):
+                    continue
+                for g in nf.key_to_rat(a[2]).atoms():
+                    if g[0] == "fn" and g[1] == "G":
+                        out.append(nf.key_to_rat(g[2]))
+    return out
+
+
 def r02_3(ctx):
     rep = ctx.rep
     rep.rule("R02.3", "weight-1 condition: sum_i v_i c_i = 1/2 over the diffusion evaluations of every Stratonovich "
@@ -246,6 +263,15 @@ def r02_3(ctx):
             else:
                 tot1, zero1, _ = _diffusion_weight(y1, lambda v: nf.equal(v, Rat.const(1)), direction)
                 ok = ok and nf.equal(tot1, Rat.const(0)) and nf.equal(zero1, Rat.const(0))
+            # the finite difference g(t', y') - g(t, y) is divided by sqrt(h): the two evaluation times must coincide,
+            # otherwise it also picks up (dg/dt) (t' - t) / (2 sqrt h), a term of size h^(1/2) times v
+            times = _fd_times(y1, W)
+            same_time = len({Rat.lift(x).key() for x in times}) == 1
+            rep.check(same_time, "R02.3", astq.loc(sc.step_fi), construct + "::fd-times",
+                      f"derivative-free {sc.cls.name}: the diffusion evaluations entering the finite difference are taken at "
+                      f"times {[str(x) for x in times]}; a time offset dt_off adds (dg/dt) dt_off v / (2 sqrt h) to the step -- "
+                      f"for the Stratonovich variant (E v = h) a bias of order h^1.5 per step, i.e. global order 1/2 for "
+                      f"time-dependent diffusions", "finite difference taken at one time")
             n_gf += 1
             rep.analysed(sc.step_fi)
             rep.check(ok, "R02.3", astq.loc(sc.step_fi), construct,
